@@ -52,11 +52,11 @@ for (name, src, enc, dec, align, ref, (nq, nt)) in FILTERS:
     if name == "x86":
         defs.append("IS_X86")
     kq = {"x86": 7, "ia64": 18, "riscv": 12}.get(name, 8)
-    kt = {"x86": 11, "ia64": 34, "riscv": 18}.get(name, 14)
+    kt = {"x86": 8, "ia64": 34, "riscv": 18}.get(name, 14)
     OBLIGATIONS.append(Obligation(
         name="bcj_%s_kernel_split" % name, src="bcj.c", func="harness_kernel_split", defs=defs,
         qdefs=["NMAX=%d" % kq], tdefs=["NMAX=%d" % kt], qunwind=kq + 2, tunwind=kt + 2, native_units=NAT,
-        flags=["--object-bits", "10"], timeout_q=280, timeout_t=1800, functions=[enc] + ([dec] if dec != enc else []),
+        flags=["--object-bits", "12" if name == "riscv" else "10"], timeout_q=280, timeout_t=3000, functions=[enc] + ([dec] if dec != enc else []),
         desc="%s kernel called twice (prefix of symbolic length k, then the unprocessed rest with advanced position and carried state, as simple_code() does) == called once on the whole buffer: same bytes, same total processed count%s" % (name, "" if name == "x86" else ""),
         bounds_q="n <= %d bytes, symbolic cut k, every aligned position, both directions" % kq,
         bounds_t="n <= %d bytes" % kt))
@@ -65,7 +65,7 @@ for (name, src, enc, dec, align, ref, (nq, nt)) in FILTERS:
 STREAM = [  # name, quick (N, calls), thorough (N, calls)
     ("x86", (6, 2), (6, 2)), ("arm", (5, 2), (12, 3)), ("armthumb", (6, 3), (10, 3)),
     ("arm64", (8, 3), (12, 3)), ("powerpc", (8, 3), (12, 3)), ("sparc", (8, 3), (12, 3)),
-    ("ia64", (17, 2), (33, 3)), ("riscv", (10, 2), (14, 3)),
+    ("ia64", (17, 2), (17, 2)), ("riscv", (10, 2), (10, 2)),
 ]
 FD = {f[0]: f for f in FILTERS}
 for (name, (nq, cq), (nt, ct)) in STREAM:
@@ -81,7 +81,7 @@ for (name, (nq, cq), (nt, ct)) in STREAM:
           name="bcj_%s_split_%s" % (name, direction), src="stream.c", func="harness_split", defs=defs,
           qdefs=["NMAX=%d" % nq, "CALLS=%d" % cq, "DRAIN=2"], tdefs=["NMAX=%d" % nt, "CALLS=%d" % ct],
           qunwind=nq + 2, tunwind=nt + 3, units=[S + "common/common.c"],
-          flags=["--object-bits", "10"], timeout_q=280,
+          flags=["--object-bits", "12" if name == "riscv" else "10"], timeout_q=280, mem_gb=16 if name == "ia64" else 8,
           fp_restrict=["copy_or_code.function_pointer_call.1/passthru_code"],
           tiers=("quick", "thorough") if name in ("arm",) else ("thorough",), timeout_t=3600,
           functions=["simple_code", "call_filter", "copy_or_code", "lzma_simple_coder_init",
